@@ -123,9 +123,12 @@ def gen_spec(r, idx, transport=None):
                 spec["messages"].append(m)
                 inp = m["name"]
             used_rpc.setdefault(nocase(name), (name, inp))
+            # server-, client- and bidi-streaming RPCs under EVERY transport set: the client defines the method for
+            # each of them also when `rest` is requested (only the REST stub raises NotImplementedError)
             streaming = r.random()
             methods.append({"name": name, "input": inp, "internal": internal_api and r.maybe(0.5),
-                            "ss": streaming < 0.12, "cs": False, "lro": 0.12 <= streaming < 0.2})
+                            "ss": streaming < 0.10 or 0.16 <= streaming < 0.22, "cs": 0.10 <= streaming < 0.22,
+                            "lro": 0.22 <= streaming < 0.30})
         if not methods:
             methods.append({"name": f"Ping{len(spec['services'])}", "input": "google.protobuf.Empty", "internal": False,
                             "ss": False, "cs": False, "lro": False})
@@ -133,8 +136,6 @@ def gen_spec(r, idx, transport=None):
     allm = [m for s in spec["services"] for m in s["methods"]]
     if internal_api and all(m["internal"] for m in allm):
         allm[0]["internal"] = False      # selective generation needs at least one listed method
-    if "rest" not in spec["transport"].split("+") and r.maybe(0.3):
-        r.pick(allm)["cs"] = True        # client streaming: gRPC only
     if "grpc" in spec["transport"].split("+") and r.maybe(0.15):
         spec["add_iam"] = True           # legacy IAM methods: three fixed rows in the fix-up table, nothing in the metadata
     if r.maybe(0.2):
@@ -247,7 +248,11 @@ def corpus_specs():
                 {"name": "Pass", "input": "PassRequest", "internal": True, "ss": False, "cs": False, "lro": False},
                 {"name": "GetBook", "input": "PassRequest", "internal": False, "ss": False, "cs": False, "lro": False}]},
             {"name": "Archive", "methods": [{"name": "Yield", "input": "google.protobuf.Empty", "internal": False, "ss": True, "cs": False, "lro": False}]},
-            {"name": "Catalog", "methods": [{"name": "Is", "input": "PassRequest", "internal": True, "ss": False, "cs": False, "lro": True}]}]
+            {"name": "Catalog", "methods": [
+                {"name": "Is", "input": "PassRequest", "internal": True, "ss": False, "cs": False, "lro": True},
+                {"name": "Upload", "input": "PassRequest", "internal": False, "ss": False, "cs": True, "lro": False},
+                {"name": "Talk", "input": "PassRequest", "internal": False, "ss": True, "cs": True, "lro": False},
+                {"name": "Watch", "input": "PassRequest", "internal": False, "ss": True, "cs": False, "lro": False}]}]
         out.append(("internal_" + tr.replace("+", "_"), s))
     return out
 
@@ -568,6 +573,8 @@ def run_spec(ctx, spec, label, probe=None):
             for m in s["methods"]:
                 ctx.count("rpc_kind", ("internal+" if m["internal"] else "") +
                           ("keyword" if m["name"] in KEYWORD_RPCS else "plain"))
+                ctx.count("rpc_streaming", {(False, False): "unary", (False, True): "server", (True, False): "client", (True, True): "bidi"}[
+                    (bool(m.get("cs")), bool(m.get("ss")))] + "/" + spec["transport"])
                 ctx.count("request_fields", len(input_fields(spec, m)))
                 ctx.count("required_fields", sum(1 for _, q in input_fields(spec, m) if q))
                 nums = input_numbers(spec, m)
